@@ -151,9 +151,72 @@ func checkC09(c *fw.Ctx) {
 	checkResolutionRefresh(c)
 }
 
+// checkRefreshFailure: when the rebuild of a cached content fails (the current event does not
+// parse, the create event is gone) the cache must not keep what an earlier check left there: a
+// new context holds nothing in that case, so the reused one would give a different verdict.
+// For every content constructor called by update(): the fields of the context written on the
+// success edge of its error test are also written on the failure edge.
+func checkRefreshFailure(c *fw.Ctx, up *ssa.Function) {
+	rule := "4 update"
+	ctxStores := func(root *ssa.BasicBlock) map[string]bool {
+		out := map[string]bool{}
+		if root == nil || len(root.Preds) != 1 {
+			return out // not an exclusive branch: nothing is written on this edge only
+		}
+		for _, b := range up.Blocks {
+			if !root.Dominates(b) {
+				continue
+			}
+			for _, ins := range b.Instrs {
+				if st, ok := ins.(*ssa.Store); ok {
+					if fa, ok := st.Addr.(*ssa.FieldAddr); ok {
+						if sty := derefStructOf(fa.X.Type()); sty != nil && strings.HasSuffix(fa.X.Type().String(), "allowerContext") {
+							out[sty.Field(fa.Field).Name()] = true
+						}
+					}
+				}
+			}
+		}
+		return out
+	}
+	n := 0
+	for _, iff := range fw.Ifs(up) {
+		v, trueMeansNil, ok := fw.NilCheck(iff.Cond)
+		if !ok {
+			continue
+		}
+		call, idx := fw.CallOf(v)
+		if call == nil || idx < 1 || !strings.Contains(fw.CalleeName(call), "ContentFromAuthEvents") {
+			continue
+		}
+		okB, failB := iff.Block().Succs[0], iff.Block().Succs[1]
+		if !trueMeansNil {
+			okB, failB = failB, okB
+		}
+		onOK, onFail := ctxStores(okB), ctxStores(failB)
+		if len(onOK) == 0 {
+			continue
+		}
+		n++
+		var missing []string
+		for f := range onOK {
+			if !onFail[f] {
+				missing = append(missing, f)
+			}
+		}
+		sort.Strings(missing)
+		construct := "when " + strings.TrimPrefix(fw.CalleeName(call), "gmsl.") + " fails, the cached fields it would have refreshed are reset"
+		c.Check(len(missing) == 0, rule, construct, c.P.Pos(iff.Pos()), "", "on the failure edge update() leaves "+strings.Join(missing, ", ")+" as an earlier check set them: the reused checker keeps judging by a stale content (e.g. an earlier 'public' join rule) where a new checker has none, so the verdict depends on what was checked before")
+	}
+	if n == 0 {
+		c.Undecided(rule, "a failed refresh resets the cache", "no error test of a content constructor was recognised in update()")
+	}
+}
+
 // checkUpdate: each cached content is stored only together with its event pointer.
 func checkUpdate(c *fw.Ctx, up *ssa.Function) {
 	rule := "4 update"
+	checkRefreshFailure(c, up)
 	pairs := map[string]string{"create": "createEvent", "powerLevels": "powerLevelsEvent", "joinRule": "joinRuleEvent"}
 	stores := map[string][]*ssa.Store{}
 	region := fw.RegionOf(up, nil)
